@@ -217,7 +217,8 @@ def generate(rng, tier, cls):
                    else {'op': 'generate_stats', 'tree': tn, 'path': []})
 
     return {'actors': [{'id': 'A1', 'kind': 'dom', 'ops': ops}],
-            'schedule': [], 'faults': []}
+            'schedule': [], 'faults': [],
+            'dom_values': rng.choice([None] * 7 + ['sub', 'same', 'same'])}
 
 
 # ---- the stats model ------------------------------------------------------
